@@ -352,7 +352,7 @@ def _sweep_worker(t):
 
 def bounded(run):
     # sweep of (particle count, thread count) pairs
-    nmax = 70 if run.tier == 'quick' else 260
+    nmax = 70 if run.tier == 'quick' else 130
     res = run.pmap(_sweep_worker, [(nt, nmax, run.seed) for nt in range(1, 17)])
     for r in res:
         if r:
